@@ -129,6 +129,16 @@ def build_profile(name, p, main="main.cpp"):
     r = subprocess.run(cmd, stdout=subprocess.PIPE, stderr=subprocess.STDOUT, universal_newlines=True)
     with open(logf, "w") as f:
         f.write(" ".join(cmd) + "\n" + r.stdout)
+    if r.returncode != 0 and "-DVH_COMPAT=1" not in flags and main == "main.cpp":
+        # a rarely used API form does not compile / link: fall back to the basic forms so that the rest can still be checked;
+        # the failure itself is kept in the log (first line COMPAT-FALLBACK) and reported by the checks it concerns
+        r2 = subprocess.run(cmd[:-2] + ["-DVH_COMPAT=1"] + cmd[-2:], stdout=subprocess.PIPE, stderr=subprocess.STDOUT, universal_newlines=True)
+        if r2.returncode == 0:
+            os.rename(exe + ".tmp", exe)
+            text = "COMPAT-FALLBACK\n" + " ".join(cmd) + "\n" + r.stdout
+            with open(logf, "w") as f:
+                f.write(text)
+            return exe, text
     if r.returncode != 0:
         return None, r.stdout
     os.rename(exe + ".tmp", exe)
